@@ -308,6 +308,8 @@ def c(ck: Check) -> None:
     st = [e for e in fm.field_events() if e.kind == "store" and e.field == "attractor_sets"]
     def second_component(e) -> bool:
         v = e.value
+        if is_empty_list(v):
+            return any(second_component(o) for o in st if o is not e and not is_empty_list(o.value))   # no seeds, no sets
         if not isinstance(v, ast.Name):
             return text(v).endswith("[1]")
         kinds = []
